@@ -97,6 +97,19 @@ theorem C21_clash_iff_own (w : World ν) (file : Nat) (x : ν) :
   simp [keys]
   omega
 
+theorem dupNames_eq (seen xs : List ν) : dupNames seen xs = dupsAfter seen xs := by
+  induction xs generalizing seen with
+  | nil => rfl
+  | cons x xs ih => simp only [dupNames, dupsAfter, ih]
+
+/-- …and inside one enum / interface: a variant or method name declared twice is reported,
+    once per extra declaration -/
+theorem C21_clash_iff_members (members : List ν) (x : ν) :
+    x ∈ dupNames [] members ↔ 2 ≤ members.count x := by
+  rw [dupNames_eq, ← List.count_pos_iff, mem_dupsAfter_count]
+  simp
+  omega
+
 /-! ### child namespaces (enum variants, interface methods, `as` prefixes) -/
 
 /-- The child namespaces visible at file level are exactly those of the file's own enums and
